@@ -32,7 +32,29 @@ def c09ihuInv (pre : String) (e : Env) (cds out : Array Nat) : Out :=
    (pre ++ "validiff", ofBool (chkValidIff e cds out)),
    (pre ++ "outletpix", ofBool (chkOutletPix e out)),
    (pre ++ "orpit", ofBool (chkOutletOrPit e out)),
-   (pre ++ "d8", ofBool (chkD8 e cds))]
+   (pre ++ "d8", ofBool (chkD8 e cds)),
+   (pre ++ "outvalid", ofBool (chkOutValid e out)),
+   (pre ++ "linksok", ofBool (chkLinksOK e cds out))]
+
+/-- hypotheses of the fourth-stage theorems (`Props/C09_ihuTotal.lean`) on the inputs of a stage: `EnvOK`
+(`chkFineWF`, `chkEnvCells`), `ReachesPit` (`chkReach`), upstream area of missing pixels not above `minupa` -/
+def c09ihuHyp (e : Env) (minupa : Option Int) (fix : Option (List Nat)) (out : Array Nat) : Out :=
+  [("hyp.env", ofBool (chkFineWF e.ds && chkEnvCells e && chkReach e.ds)),
+   ("hyp.upa", ofBool (match minupa with
+     | some m => chkUpaNodata e m
+     | none => true)),
+   ("hyp.fix", ofBool (match fix with
+     | some f => chkFixOK e f out
+     | none => true))]
+
+/-- `optimize_rivlen_sync` / `minimize_error_outlets_distinct`: `streams` in step with the outlet array before
+(`sync.pre`, with the side conditions of the theorem) and, on the IMPLEMENTATION's arrays, after (`sync.post`) -/
+def c09ihuSync (a : Args) (e : Env) (streams : Array Int) (out : Array Nat) (side : Bool) : Out :=
+  match a.get? "impl.streams", a.get? "impl.out" with
+  | some s', some o' =>
+    [("sync.pre", ofBool (side && chkSync e streams out)),
+     ("sync.post", ofBool (chkSync e s' (o'.map Int.toNat) && chkDistinct e (o'.map Int.toNat)))]
+  | _, _ => []
 
 def opsC09ihu : List (String × Op) := [
   -- core._d8_idx / core._upstream_d8_idx / next_outlet
@@ -68,14 +90,15 @@ def opsC09ihu : List (String × Op) := [
       | none => (upscaleError e.ds out cds).map upscaleErrorFix
     let pre := c09ihuInv "pre." e cds out
     let spec := c09ihuInv "spec." e icds iout
+    let hyp := c09ihuHyp e none fix out
     match fix with
-    | none => pure ([("fuel", ofBool true)] ++ pre ++ spec)
+    | none => pure ([("fuel", ofBool true)] ++ pre ++ spec ++ hyp)
     | some fix =>
       match relocateOutlets e fix cds out sorts with
       | some r =>
         pure ([("model.cds", ofNats r.cds), ("model.out", ofNats r.out), ("model.fix", ofNatList r.fixOut),
-               ("fuel", ofBool false)] ++ c09ihuSortOut r.sorts ++ pre ++ spec)
-      | none => pure ([("fuel", ofBool true)] ++ pre ++ spec)),
+               ("fuel", ofBool false)] ++ c09ihuSortOut r.sorts ++ pre ++ spec ++ hyp)
+      | none => pure ([("fuel", ofBool true)] ++ pre ++ spec ++ hyp)),
   ("c09ihu_rivlen", fun a => do
     let e ← c09ihuEnv a
     let par ← c09ihuPar a
@@ -85,11 +108,15 @@ def opsC09ihu : List (String × Op) := [
     let iout ← a.nats "impl.out"
     let pre := c09ihuInv "pre." e cds out
     let spec := c09ihuInv "spec." e icds iout
-    match optimizeRivlen e par (← a.natList "short") (← a.bools "valid") (← a.ints "streams", cds, out) with
+    let valid ← a.bools "valid"
+    let streams ← a.ints "streams"
+    let hyp := c09ihuHyp e (some par.minupa) none out ++ [("hyp.valid", ofBool (decide (valid.size ≤ e.ncell)))] ++
+      c09ihuSync a e streams out (decide (valid.size ≤ out.size))
+    match optimizeRivlen e par (← a.natList "short") valid (streams, cds, out) with
     | some (streams, cds, out) =>
       pure ([("model.streams", streams), ("model.cds", ofNats cds), ("model.out", ofNats out), ("fuel", ofBool false)]
-            ++ pre ++ spec)
-    | none => pure ([("fuel", ofBool true)] ++ pre ++ spec)),
+            ++ pre ++ spec ++ hyp)
+    | none => pure ([("fuel", ofBool true)] ++ pre ++ spec ++ hyp)),
   ("c09ihu_minerr", fun a => do
     let e ← c09ihuEnv a
     let par ← c09ihuPar a
@@ -101,11 +128,15 @@ def opsC09ihu : List (String × Op) := [
     let poc ← a.nat "poc"
     let pre := c09ihuInv "pre." e cds out
     let spec := c09ihuInv "spec." e icds iout
-    match minimizeError e par poc (← a.natList "fix") (← a.ints "streams", cds, out) sorts with
+    let fix ← a.natList "fix"
+    let streams ← a.ints "streams"
+    let hyp := c09ihuHyp e (some par.minupa) (some fix) out ++
+      c09ihuSync a e streams out (e.nrow * e.ncol == out.size && fix.all fun c => decide (c < out.size))
+    match minimizeError e par poc fix (streams, cds, out) sorts with
     | some ((streams, cds, out), sorts) =>
       pure ([("model.streams", streams), ("model.cds", ofNats cds), ("model.out", ofNats out), ("fuel", ofBool false)]
-            ++ c09ihuSortOut sorts ++ pre ++ spec)
-    | none => pure ([("fuel", ofBool true)] ++ pre ++ spec)),
+            ++ c09ihuSortOut sorts ++ pre ++ spec ++ hyp)
+    | none => pure ([("fuel", ofBool true)] ++ pre ++ spec ++ hyp)),
   -- the whole of `ihu` (first pass + niter loop); `upa` in quarter units
   ("c09ihu_ihu", fun a => do
     let e ← c09ihuEnv a
@@ -114,10 +145,19 @@ def opsC09ihu : List (String × Op) := [
     let ea ← a.bools "ea"
     let o : IhuOpt := { niter := (← a.nat "niter"), optRivlen := (← a.nat "opt_rivlen") != 0,
                         minError := (← a.nat "min_error") != 0, poc := (← a.nat "poc") }
+    -- hypotheses of `ihu_model_total` / `ihu_links` and the conclusion of `ihu_links` on the IMPLEMENTATION's output
+    let hyp : Out := c09ihuHyp e (some (Int.ofNat (g.cs * g.cs))) none #[] ++
+      [("hyp.geo", ofBool (e.ds.size == g.subnrow * g.subncol && decide (0 < g.cs))),
+       ("hyp.d8ea", ofBool (chkFineD8 e.ds g.subncol && chkEaCross g ea e.ds.size))]
+    let spec : Out := match a.get? "impl.cds", a.get? "impl.out" with
+      | some c, some ot => [("spec.linksok", ofBool (chkLinksOK e (c.map Int.toNat) (ot.map Int.toNat))),
+                            ("spec.distinct", ofBool (chkDistinct e (ot.map Int.toNat)))]
+      | _, _ => []
     match ihuModel e.ds e.upa ea g o (← c09ihuSorts a) with
     | some (cds, out, sorts) =>
-      pure ([("model.cds", ofNats cds), ("model.out", ofNats out), ("fuel", ofBool false)] ++ c09ihuSortOut sorts)
-    | none => pure [("fuel", ofBool true)])
+      pure ([("model.cds", ofNats cds), ("model.out", ofNats out), ("fuel", ofBool false)] ++ c09ihuSortOut sorts
+            ++ hyp ++ spec)
+    | none => pure ([("fuel", ofBool true)] ++ hyp ++ spec))
 ]
 
 end Pf.Ops
